@@ -221,10 +221,18 @@ impl CfModel {
     pub fn deletable(&self, f: &Cf, e: usize) -> usize {
         let mut c = f.clone();
         let mut n = 0;
-        while c.delete(&self.cfg.key_of(e)) {
-            n += 1;
-            if n > 64 {
-                break;
+        loop {
+            match mccore::panics::catch(|| c.delete(&self.cfg.key_of(e))) {
+                Ok(true) => {
+                    n += 1;
+                    if n > 64 {
+                        break;
+                    }
+                }
+                Ok(false) => break,
+                // a panicking delete (e.g. the element counter underflows) is reported as an
+                // impossible count so that every comparison involving it fails loudly
+                Err(_) => return 1000 + n,
             }
         }
         n
@@ -427,6 +435,7 @@ pub struct PairStats {
     pub fail_middle: u64,
     pub fail_last: u64,
     pub failing_with_residue: u64,
+    pub fail_unknown: u64,
 }
 
 /// `a.union(b)` over ordered pairs x all RNG outcomes. Mode::Classes reference.
@@ -488,11 +497,22 @@ pub fn pair_sweep(model: &CfModel, lefts: &[St], rights: &[St], threads: usize) 
                                             }
                                             Ok(Err(_)) => {
                                                 st.failing += 1;
-                                                // position of the failure is not observable; classify by how many of b's
-                                                // items could have been transferred before: residue size tells
+                                                // position of the failure: re-run the transfer item by item through the
+                                                // public insert (same RNG picks, same order as union walks b's table)
                                                 let after = model.obs(&u);
-                                                let residue = u.verif_table().iter().filter(|&&x| x != 0).count() as i64 - a.f.verif_table().iter().filter(|&&x| x != 0).count() as i64;
-                                                if residue == 0 { st.fail_first += 1 } else if residue as usize + 1 >= nb_items { st.fail_last += 1 } else { st.fail_middle += 1 }
+                                                let items: Vec<usize> = b.f.verif_table().iter().enumerate().filter(|(_, &x)| x != 0)
+                                                    .map(|(slot, &x)| cfg.fps.iter().position(|&f| f == x).unwrap() * cfg.n_buckets + slot / cfg.bucketsize).collect();
+                                                mccore::chooser::begin_with(&picks, eo.tail, eo.free_depth);
+                                                let mut a2 = a.f.clone();
+                                                let mut pos = usize::MAX;
+                                                for (k, &e) in items.iter().enumerate() {
+                                                    if a2.insert(&cfg.key_of(e)).is_err() {
+                                                        pos = k;
+                                                        break;
+                                                    }
+                                                }
+                                                mccore::chooser::end();
+                                                if pos == 0 { st.fail_first += 1 } else if pos == usize::MAX { st.fail_unknown += 1 } else if pos + 1 == nb_items { st.fail_last += 1 } else { st.fail_middle += 1 }
                                                 if after != a_obs {
                                                     st.failing_with_residue += 1;
                                                     push("C12", format!("{} failed union changes observations", cfg.sig()), format!("union returned Err but a's observations changed (len, is_empty, query, deletable): {:?} -> {:?}", a_obs, after), "a.union(&b) = Err, then observe a");
@@ -525,6 +545,7 @@ pub fn pair_sweep(model: &CfModel, lefts: &[St], rights: &[St], threads: usize) 
         total.fail_middle += s.fail_middle;
         total.fail_last += s.fail_last;
         total.failing_with_residue += s.failing_with_residue;
+        total.fail_unknown += s.fail_unknown;
         viols.extend(v);
     }
     (total, viols)
